@@ -44,7 +44,7 @@ func (e *Engine) newCtx(fn *ssa.Function, opts *fnOpts, st *fnState) *FnCtx {
 		iters: map[ssa.Value]*iterInfo{}, closures: map[ssa.Value]*ssa.MakeClosure{}, strlits: map[string]string{},
 		names: map[string]bool{}, opts: opts, usedContracts: map[string]bool{}, usedExternal: map[string]bool{},
 		nameCount: map[string]int{}, prevHeap: map[string]string{}, uncontracted: map[string]bool{},
-		usedSpecFuncs: map[string]bool{}, readSnaps: map[string]heapState{}, volatile: map[string]bool{}, usedLemmaCalls: map[string]bool{}, sobSeen: map[string]bool{}, captured: map[*ssa.Alloc]bool{}, boundFuncs: map[ssa.Value]*ssa.Function{}, state: st}
+		usedSpecFuncs: map[string]bool{}, readSnaps: map[string]heapState{}, volatile: map[string]bool{}, volatileRefs: map[string][]string{}, usedLemmaCalls: map[string]bool{}, sobSeen: map[string]bool{}, captured: map[*ssa.Alloc]bool{}, boundFuncs: map[ssa.Value]*ssa.Function{}, state: st}
 	if st != nil {
 		c.knownHeaps = st.knownHeaps
 		c.knownLocals = st.knownLocals
